@@ -324,7 +324,7 @@ def run_group(ctx, group):
     sp = "all" if n <= 1 else "le1"
     i = -1
     for indices in U.index_tuples(sym, n, menu, "b"):
-        for d in U.arrays_over(sym, indices, "all+empty" if n <= 1 else "all", sp, ferm=ferm, label=9):
+        for d in U.arrays_over(sym, indices, "all+empty" if n <= 1 else "all", sp, ferm=ferm, label=9, phases=("probe0" if ferm else "none")):
             i += 1
             if i % nch != k:
                 continue
